@@ -196,8 +196,22 @@ def run(prog, ctx):
                     else:
                         vals3.add(None)
             return False
+        # first the round of the unknown item (no name may match), then whatever follows (later items may match)
+        at_header = []
+
+        def acc_first(b, fd):
+            if b == hb:
+                at_header.append(dict(fd))
+            return acc3(b, fd)
         try:
-            cfg.feasible_reach(None, lambda lit, b, i: (b, i) in match_edges, lambda a: True, start=body_entry, accept=acc3)
+            cfg.feasible_reach(None, lambda lit, b, i: (b, i) in match_edges or b == hb, lambda a: True, start=body_entry, accept=acc_first)
+            seen9 = set()
+            for fd9 in at_header:
+                k9 = frozenset(fd9.items())
+                if k9 in seen9:
+                    continue
+                seen9.add(k9)
+                cfg.feasible_reach(None, lambda lit, b, i: False, lambda a: True, start=hb, accept=acc3, init_facts=fd9)
         except Inconclusive:
             vals3 = {None}
     nf3 = prog.enumerators.get("ECONF_OPTION_NOT_FOUND")
